@@ -2,7 +2,7 @@
 # prints the census files (and selected class counters) found in a VERIF_OUT directory; usage: census_show.py <dir> [substring of class names]
 import json, os, glob, sys
 d = sys.argv[1]
-for f in glob.glob(d + '/census-*.json'):
+for f in glob.glob(d + '/census-C*.json'):
     c = json.load(open(f))
     for k, v in c['examples'].items():
         print('=====', k, c['counts'][k]); print(v[:1500])
